@@ -3,16 +3,18 @@
 
 mod c08;
 mod c09;
+mod c12;
 mod c18;
 mod common;
 mod json;
 mod rec;
+mod thr_ops;
 mod val;
 
 use common::*;
 
 fn all_families() -> Vec<Box<dyn Family>> {
-  vec![Box::new(c08::C08), Box::new(c18::C18), Box::new(c09::C09)]
+  vec![Box::new(c08::C08), Box::new(c18::C18), Box::new(c09::C09), Box::new(c12::C12), Box::new(thr_ops::C19Ops), Box::new(thr_ops::C19Subjects), Box::new(thr_ops::C11)]
 }
 
 fn spec_for(prop: &str) -> Option<CheckSpec> {
@@ -39,6 +41,47 @@ fn spec_for(prop: &str) -> Option<CheckSpec> {
         "lock-operation granularity".into(),
       ],
       families: vec![FamilySpec { fam: Box::new(c09::C09), quick_runs: 120_000, thorough_runs: 2_500_000 }],
+      quick_cap_s: 60,
+      thorough_cap_s: 900,
+    }),
+    "C12" => Some(CheckSpec {
+      property: "C12",
+      level: "exploration",
+      rule: threaded_rule.to_string(),
+      assumptions: vec![
+        "every pushed item is unique, so each delivery is attributable to one push".into(),
+        "stamps are conservative: an item is required only if its push started after subscribe returned, forbidden only if its push started after unsubscribe returned".into(),
+        "lock-operation granularity".into(),
+      ],
+      families: vec![FamilySpec { fam: Box::new(c12::C12), quick_runs: 150_000, thorough_runs: 3_000_000 }],
+      quick_cap_s: 60,
+      thorough_cap_s: 900,
+    }),
+    "C11" => Some(CheckSpec {
+      property: "C11",
+      level: "exploration",
+      rule: threaded_rule.to_string(),
+      assumptions: vec![
+        "premise of the property: no input fails; every input completes; items are unique".into(),
+        "zip is only judged on inputs of equal length (the statement does not say when zip completes otherwise)".into(),
+        "lock-operation granularity".into(),
+      ],
+      families: vec![FamilySpec { fam: Box::new(thr_ops::C11), quick_runs: 120_000, thorough_runs: 2_500_000 }],
+      quick_cap_s: 60,
+      thorough_cap_s: 900,
+    }),
+    "C19" => Some(CheckSpec {
+      property: "C19",
+      level: "exploration",
+      rule: threaded_rule.to_string(),
+      assumptions: vec![
+        "conservative stamps: a delivery is flagged only if its originating emission started after the terminal callback had returned; in-flight events are never flagged".into(),
+        "lock-operation granularity".into(),
+      ],
+      families: vec![
+        FamilySpec { fam: Box::new(thr_ops::C19Ops), quick_runs: 90_000, thorough_runs: 2_000_000 },
+        FamilySpec { fam: Box::new(thr_ops::C19Subjects), quick_runs: 90_000, thorough_runs: 2_000_000 },
+      ],
       quick_cap_s: 60,
       thorough_cap_s: 900,
     }),
